@@ -430,6 +430,7 @@ type tup struct {
 type tupCodec struct {
 	schema []string
 	bits32 bool
+	own    bool // own encodings instead of the library's
 	spare  bool     // return slices with sentinel-filled spare capacity
 	issued [][]byte // every slice handed to the tree (full capacity), when spare
 	snaps  [][]byte
@@ -498,15 +499,100 @@ func decField(ft string, b []byte) uint64 {
 	panic("decField " + ft)
 }
 
+// ownEnc / ownDec: a user's own injective, order-preserving fixed-width encodings.
+func ownEnc(ft string, bits32 bool, u uint64) []byte {
+	w := fieldBits(ft, bits32)
+	var x uint64
+	switch fieldClass(ft) {
+	case 'u':
+		x = u
+	case 'i':
+		x = u ^ (1 << uint(w-1))
+		if w < 64 {
+			x &= (1 << uint(w)) - 1
+		}
+	case 'f':
+		f := fieldToFloat(ft, u)
+		b := u
+		if w == 32 {
+			b &= 0xFFFFFFFF
+		}
+		switch {
+		case f != f:
+			x = 0 // every NaN is one key, below everything
+		case b>>uint(w-1) != 0:
+			x = (^b) + 1
+			if w == 32 {
+				x = (uint64(^uint32(b))) + 1
+			}
+		default:
+			x = (b | 1<<uint(w-1)) + 1
+		}
+	}
+	out := make([]byte, w/8)
+	for i := range out {
+		out[len(out)-1-i] = byte(x >> (8 * uint(i)))
+	}
+	return out
+}
+
+func ownDec(ft string, bits32 bool, b []byte) uint64 {
+	w := fieldBits(ft, bits32)
+	var x uint64
+	for _, c := range b {
+		x = x<<8 | uint64(c)
+	}
+	switch fieldClass(ft) {
+	case 'u':
+		return x
+	case 'i':
+		x ^= 1 << uint(w-1)
+		if w < 64 {
+			sh := uint(64 - w)
+			x = uint64(int64(x<<sh) >> sh)
+		}
+		return x
+	}
+	if x == 0 {
+		if w == 32 {
+			return canonNaN32
+		}
+		return canonNaN64
+	}
+	x--
+	if x>>uint(w-1) != 0 {
+		return x &^ (1 << uint(w-1))
+	}
+	if w == 32 {
+		return uint64(^uint32(x))
+	}
+	return ^x
+}
+
 func (c *tupCodec) Transform(k tup) ([]byte, []byte) {
 	var out []byte
 	for i, ft := range c.schema {
 		if ft == "str" {
+			if c.own {
+				// escaped string: 0x00 -> 0x00 0xFF, terminated by 0x00 0x00
+				for j := 0; j < len(k.S); j++ {
+					out = append(out, k.S[j])
+					if k.S[j] == 0 {
+						out = append(out, 0xFF)
+					}
+				}
+				out = append(out, 0, 0)
+				break
+			}
 			out = append(out, k.S...)
 			out = append(out, 0)
 			break
 		}
-		out = append(out, encField(ft, k.F[i])...)
+		if c.own {
+			out = append(out, ownEnc(ft, c.bits32, k.F[i])...)
+		} else {
+			out = append(out, encField(ft, k.F[i])...)
+		}
 	}
 	if c.spare {
 		full := make([]byte, len(out)+5)
@@ -530,11 +616,31 @@ func (c *tupCodec) Restore(b []byte) tup {
 	off := 0
 	for i, ft := range c.schema {
 		if ft == "str" {
+			if c.own {
+				var sb []byte
+				for j := off; j+1 < len(b); j++ {
+					if b[j] == 0 {
+						if b[j+1] == 0 {
+							break
+						}
+						sb = append(sb, 0)
+						j++
+						continue
+					}
+					sb = append(sb, b[j])
+				}
+				k.S = string(sb)
+				break
+			}
 			k.S = string(b[off : len(b)-1])
 			break
 		}
 		w := fieldBits(ft, c.bits32) / 8
-		k.F[i] = decField(ft, b[off:off+w])
+		if c.own {
+			k.F[i] = ownDec(ft, c.bits32, b[off:off+w])
+		} else {
+			k.F[i] = decField(ft, b[off:off+w])
+		}
 		off += w
 	}
 	return k
@@ -579,8 +685,8 @@ func tupToCanon(schema []string, k tup) []byte {
 	return out
 }
 
-func compoundDrv[V any](kt KeyType, spare bool, vo valOps[V]) TreeAPI {
-	codec := &tupCodec{schema: kt.Schema, bits32: kt.Bits32, spare: spare}
+func compoundDrv[V any](kt KeyType, spare bool, own bool, vo valOps[V]) TreeAPI {
+	codec := &tupCodec{schema: kt.Schema, bits32: kt.Bits32, spare: spare, own: own}
 	d := &drv[tup, V]{t: art.NewCompoundTree[tup, V](codec), vo: vo,
 		mk: func(b []byte) tup { return tupFromCanon(kt.Schema, b) },
 		un: func(k tup) []byte { return tupToCanon(kt.Schema, k) }}
@@ -589,7 +695,7 @@ func compoundDrv[V any](kt KeyType, spare bool, vo valOps[V]) TreeAPI {
 
 // ---- dispatch ----
 
-func withKey[V any](kt KeyType, spareCodec bool, vo valOps[V]) TreeAPI {
+func withKey[V any](kt KeyType, spareCodec bool, ownCodec bool, vo valOps[V]) TreeAPI {
 	switch kt.Kind {
 	case "alpha":
 		if kt.T == "bytes" {
@@ -637,25 +743,25 @@ func withKey[V any](kt KeyType, spareCodec bool, vo valOps[V]) TreeAPI {
 			return collRunesDrv(vo)
 		}
 	case "compound":
-		return compoundDrv(kt, spareCodec, vo)
+		return compoundDrv(kt, spareCodec, ownCodec, vo)
 	}
 	panic("withKey: bad key type " + kt.String())
 }
 
-func newTree(kt KeyType, val string, spareCodec bool) TreeAPI {
+func newTree(kt KeyType, val string, spareCodec bool, ownCodec bool) TreeAPI {
 	switch val {
 	case "", "i64":
-		return withKey(kt, spareCodec, vU64())
+		return withKey(kt, spareCodec, ownCodec, vU64())
 	case "str":
-		return withKey(kt, spareCodec, vStr())
+		return withKey(kt, spareCodec, ownCodec, vStr())
 	case "ptr":
-		return withKey(kt, spareCodec, vPtr())
+		return withKey(kt, spareCodec, ownCodec, vPtr())
 	case "bytes":
-		return withKey(kt, spareCodec, vBytes())
+		return withKey(kt, spareCodec, ownCodec, vBytes())
 	case "empty":
-		return withKey(kt, spareCodec, vEmpty())
+		return withKey(kt, spareCodec, ownCodec, vEmpty())
 	case "big":
-		return withKey(kt, spareCodec, vBig())
+		return withKey(kt, spareCodec, ownCodec, vBig())
 	}
 	panic("newTree: bad value type " + val)
 }
